@@ -389,6 +389,12 @@ func c10RunScenario(c *kc.Ctx, sp *c10Spec, rng *kc.Rng) (*c10Run, error) {
 		bcast = append(bcast, bmsg{&mresp{sid: osid, idx: src.idx, approved: src.approved, sig: be.signResp(int(src.idx), osid, src.idx, src.approved), sigOK: true}, "othersid"})
 		// index out of range
 		bcast = append(bcast, bmsg{&mresp{sid: src.sid, idx: uint32(n + rng.Intn(3)), approved: true, sig: src.sig, sigOK: false}, "range"})
+		// the signed response with its status flipped and the signature kept: the status is covered by the signature
+		st := *src
+		st.approved = !src.approved
+		st.sig = append([]byte{}, src.sig...)
+		st.sigOK = false
+		bcast = append(bcast, bmsg{&st, "statusflip"})
 		// duplicate and equivocation
 		bcast = append(bcast, bmsg{src, "dup"})
 		fl := &mresp{sid: src.sid, idx: src.idx, approved: !src.approved, sigOK: true}
